@@ -647,6 +647,8 @@ def run_fortran_engine(ctx, prop):
         ctx.count("probe:array_overwritten_with_other_length", sc.n_shrink)
     if getattr(sc, "n_condpair", 0):
         ctx.count("probe:same_condition_twice", sc.n_condpair)
+    if getattr(sc, "n_twin", 0):
+        ctx.count("probe:twin_phase", sc.n_twin)
     if getattr(sc, "struct", None):
         ctx.count("probe:structure_user_type")
     if getattr(sc, "has_v", False):
